@@ -4,7 +4,7 @@
 #![cfg(feature = "f-pattern")]
 use crate::ast::{self, Fl};
 use crate::common::Common;
-use crate::sem::{compile, Hay};
+use crate::sem::{compile, fueled, Hay};
 use serde_json::{json, Value};
 use std::io::Write;
 use std::str::pattern::{Pattern, ReverseSearcher, SearchStep, Searcher};
@@ -62,7 +62,7 @@ pub fn main(args: &[String]) -> i32 {
                     run_no += 1;
                     runs += 1;
                     writeln!(trace, "{}", json!({"ev": "reset", "run": run_no, "rid": idx, "h": hi, "sched": si, "len": h.len(), "matches": ms, "bounds": bounds})).unwrap();
-                    let r = std::panic::catch_unwind(std::panic::AssertUnwindSafe(|| {
+                    let r = std::panic::catch_unwind(std::panic::AssertUnwindSafe(|| fueled(5_000_000, || {
                         let mut out = Vec::new();
                         let mut s = (&re).into_searcher(h);
                         for &fwd in sched {
@@ -73,7 +73,7 @@ pub fn main(args: &[String]) -> i32 {
                             }
                         }
                         out
-                    }));
+                    })));
                     match r {
                         Ok(evs) => {
                             for e in evs {
